@@ -11,6 +11,7 @@ import (
 	"errors"
 	"fmt"
 	"io"
+	"slices"
 
 	"google.golang.org/protobuf/proto"
 
@@ -45,11 +46,14 @@ type prims struct {
 	jverifier jwt.Verifier
 	kd        keyderivation.KeysetDeriver
 	kder      keyDeriver
+	prehash   tink.Prehash // with phsigner and verifier: the pre-hashed signature flow
+	phsigner  tink.PrehashSigner
+	sigPrefix []byte // output prefix the (prefix-less) pre-hashed signature needs for the verifier
 }
 
 func (p *prims) empty() bool {
 	return p == nil || (p.aead == nil && p.daead == nil && p.mac == nil && p.prfs == nil && p.prf == nil && p.signer == nil && p.verifier == nil &&
-		p.henc == nil && p.hdec == nil && p.saead == nil && p.jmac == nil && p.jsigner == nil && p.jverifier == nil && p.kd == nil && p.kder == nil)
+		p.henc == nil && p.hdec == nil && p.saead == nil && p.prehash == nil && p.jmac == nil && p.jsigner == nil && p.jverifier == nil && p.kd == nil && p.kder == nil)
 }
 
 type maker func() (*prims, error)
@@ -67,7 +71,10 @@ func lensFor(cost int, big bool) []int {
 			l = append(l, 70001)
 		}
 	case 1:
-		l = []int{0, 33, 1000}
+		l = []int{0, 1000}
+		if hlib.Thorough() {
+			l = []int{0, 33, 1000}
+		}
 		if big {
 			l = append(l, 66000)
 		}
@@ -122,14 +129,14 @@ func addAEAD(t *target, r *hlib.Rng, p *prims, lens []int) error {
 			}
 			return "ok"
 		})
-		t.add("dec-fixed", ct, wantPT, func(*hlib.Rng) string {
+		t.addX("dec-fixed", ct, pt, wantPT, func(*hlib.Rng) string {
 			got, err := p.aead.Decrypt(ct, ad)
 			if err != nil {
 				return "err:" + errStr(err)
 			}
 			return canon(got)
 		})
-		t.add("dec-bad", bad, "err", func(*hlib.Rng) string {
+		t.addX("dec-bad", bad, pt, "err", func(*hlib.Rng) string {
 			got, err := p.aead.Decrypt(bad, ad)
 			if err != nil {
 				return "err"
@@ -159,14 +166,14 @@ func addDAEAD(t *target, r *hlib.Rng, p *prims, lens []int) error {
 			}
 			return canon(c)
 		})
-		t.add("dec-fixed", ct, canon(pt), func(*hlib.Rng) string {
+		t.addX("dec-fixed", ct, pt, canon(pt), func(*hlib.Rng) string {
 			got, err := p.daead.DecryptDeterministically(ct, ad)
 			if err != nil {
 				return "err:" + errStr(err)
 			}
 			return canon(got)
 		})
-		t.add("dec-bad", bad, "err", func(*hlib.Rng) string {
+		t.addX("dec-bad", bad, pt, "err", func(*hlib.Rng) string {
 			got, err := p.daead.DecryptDeterministically(bad, ad)
 			if err != nil {
 				return "err"
@@ -202,7 +209,7 @@ func addMAC(t *target, r *hlib.Rng, p *prims, lens []int) error {
 			}
 			return "ok"
 		})
-		t.add("verify-bad", bad, "err,err", func(*hlib.Rng) string {
+		t.addX("verify-bad", bad, msg, "err,err", func(*hlib.Rng) string {
 			a, b := "err", "err"
 			if p.mac.VerifyMAC(bad, msg) == nil {
 				a = "accepted-corrupted-tag"
@@ -323,7 +330,7 @@ func addSig(t *target, r *hlib.Rng, p *prims, lens []int) error {
 			}
 			return "ok"
 		})
-		t.add("verify-bad", bad, "err,err", func(*hlib.Rng) string {
+		t.addX("verify-bad", bad, msg, "err,err", func(*hlib.Rng) string {
 			a, b := "err", "err"
 			if p.verifier.Verify(bad, msg) == nil {
 				a = "accepted-corrupted-signature"
@@ -332,6 +339,58 @@ func addSig(t *target, r *hlib.Rng, p *prims, lens []int) error {
 				b = "accepted-other-message"
 			}
 			return a + "," + b
+		})
+	}
+	return nil
+}
+
+// ---------------------------------------------------------------- pre-hashed signatures
+
+func addPrehash(t *target, r *hlib.Rng, p *prims, lens []int) error {
+	for _, L := range lens {
+		msg := t.input(r, L)
+		mu0, err := p.prehash.ComputePrehash(msg)
+		if err != nil {
+			return oracleErr("ComputePrehash", err)
+		}
+		sig0, err := p.phsigner.SignPrehash(mu0)
+		if err != nil {
+			return oracleErr("SignPrehash", err)
+		}
+		if err := p.verifier.Verify(slices.Concat(p.sigPrefix, sig0), msg); err != nil {
+			return oracleErr("Verify of a pre-hashed signature", err)
+		}
+		mu := t.guardBytes(mu0)
+		t.add("compute-prehash", msg, canon(mu0), func(*hlib.Rng) string {
+			m, err := p.prehash.ComputePrehash(msg)
+			if err != nil {
+				return "err:" + errStr(err)
+			}
+			return canon(m)
+		})
+		t.add("prehash-sign-verify", msg, "ok", func(*hlib.Rng) string {
+			m, err := p.prehash.ComputePrehash(msg)
+			if err != nil {
+				return "prehash-err:" + errStr(err)
+			}
+			s, err := p.phsigner.SignPrehash(m)
+			if err != nil {
+				return "sign-err:" + errStr(err)
+			}
+			if err := p.verifier.Verify(slices.Concat(p.sigPrefix, s), msg); err != nil {
+				return "own-signature-rejected:" + errStr(err)
+			}
+			return "ok"
+		})
+		t.add("sign-fixed-prehash-verify", msg, "ok", func(*hlib.Rng) string {
+			s, err := p.phsigner.SignPrehash(mu)
+			if err != nil {
+				return "sign-err:" + errStr(err)
+			}
+			if err := p.verifier.Verify(slices.Concat(p.sigPrefix, s), msg); err != nil {
+				return "own-signature-rejected:" + errStr(err)
+			}
+			return "ok"
 		})
 	}
 	return nil
@@ -366,14 +425,14 @@ func addHybrid(t *target, r *hlib.Rng, p *prims, lens []int) error {
 			}
 			return "ok"
 		})
-		t.add("dec-fixed", ct, canon(pt), func(*hlib.Rng) string {
+		t.addX("dec-fixed", ct, pt, canon(pt), func(*hlib.Rng) string {
 			got, err := p.hdec.Decrypt(ct, ctx)
 			if err != nil {
 				return "err:" + errStr(err)
 			}
 			return canon(got)
 		})
-		t.add("dec-bad", bad, "err", func(*hlib.Rng) string {
+		t.addX("dec-bad", bad, pt, "err", func(*hlib.Rng) string {
 			got, err := p.hdec.Decrypt(bad, ctx)
 			if err != nil {
 				return "err"
@@ -489,14 +548,14 @@ func addStream(t *target, r *hlib.Rng, p *prims, lens []int) error {
 			}
 			return "ok"
 		})
-		t.add("stream-dec-fixed", ct, canon(pt), func(gr *hlib.Rng) string {
+		t.addX("stream-dec-fixed", ct, pt, canon(pt), func(gr *hlib.Rng) string {
 			got, err := streamDecrypt(p.saead, ct, ad, gr)
 			if err != nil {
 				return "err:" + errStr(err)
 			}
 			return canon(got)
 		})
-		t.add("stream-dec-bad", bad, "err", func(gr *hlib.Rng) string {
+		t.addX("stream-dec-bad", bad, pt, "err", func(gr *hlib.Rng) string {
 			got, err := streamDecrypt(p.saead, bad, ad, gr)
 			if err != nil {
 				return "err"
@@ -601,14 +660,14 @@ func addJWTMAC(t *target, r *hlib.Rng, p *prims, n int) error {
 			}
 			return canon([]byte(c)) + "|" + verifiedCanon(v)
 		})
-		t.add("jwt-verify-fixed", []byte(c0), verifiedCanon(v0), func(*hlib.Rng) string {
+		t.addX("jwt-verify-fixed", []byte(c0), in, verifiedCanon(v0), func(*hlib.Rng) string {
 			v, err := p.jmac.VerifyMACAndDecode(c0, val)
 			if err != nil {
 				return "rejected:" + errStr(err)
 			}
 			return verifiedCanon(v)
 		})
-		t.add("jwt-verify-bad", []byte(bad), "err", func(*hlib.Rng) string {
+		t.addX("jwt-verify-bad", []byte(bad), in, "err", func(*hlib.Rng) string {
 			if _, err := p.jmac.VerifyMACAndDecode(bad, val); err != nil {
 				return "err"
 			}
@@ -651,14 +710,14 @@ func addJWTSig(t *target, r *hlib.Rng, p *prims, n int) error {
 			}
 			return verifiedCanon(v)
 		})
-		t.add("jwt-verify-fixed", []byte(c0), want, func(*hlib.Rng) string {
+		t.addX("jwt-verify-fixed", []byte(c0), in, want, func(*hlib.Rng) string {
 			v, err := p.jverifier.VerifyAndDecode(c0, val)
 			if err != nil {
 				return "rejected:" + errStr(err)
 			}
 			return verifiedCanon(v)
 		})
-		t.add("jwt-verify-bad", []byte(bad), "err", func(*hlib.Rng) string {
+		t.addX("jwt-verify-bad", []byte(bad), in, "err", func(*hlib.Rng) string {
 			if _, err := p.jverifier.VerifyAndDecode(bad, val); err != nil {
 				return "err"
 			}
@@ -757,6 +816,7 @@ func buildTarget(seed uint64, id, class string, cost int, big bool, mk maker, ex
 		{p.prfs != nil, func() error { return addPRFSet(t, r, p, lens) }},
 		{p.prf != nil, func() error { return addPRF(t, r, p, lens) }},
 		{p.signer != nil, func() error { return addSig(t, r, p, lens) }},
+		{p.prehash != nil && p.phsigner != nil && p.verifier != nil, func() error { return addPrehash(t, r, p, lens) }},
 		{p.henc != nil && p.hdec != nil, func() error { return addHybrid(t, r, p, lens) }},
 		{p.saead != nil, func() error { return addStream(t, r, p, lens) }},
 		{p.jmac != nil, func() error { return addJWTMAC(t, r, p, len(lens)) }},
